@@ -267,11 +267,24 @@ Definition join_ok (e : senv) (k : jkind) (ms : list member) : bool :=
   match first_cands e NS.empty ms with Some _ => true | None => false end &&
   negb (Nat.eqb (length ms) 0) && Nat.leb (length ms) 8.
 
+(* the harness resolves every handle position before anything is fetched: a position that was never returned
+   makes the whole operation a no-op *)
+Fixpoint m_handles (m : member) : list href :=
+  match m with
+  | MRestrict _ _ _ _ _ others => others
+  | MMaybe m' => m_handles m'
+  | _ => []
+  end.
+Definition handles_ok (hs : pvec entity) (k : jkind) (ms : list member) : bool :=
+  forallb (fun h => match pv_get hs (N.of_nat h) with Some _ => true | None => false end)
+          (flat_map m_handles ms ++ match k with JLendGet h => [h] | _ => [] end).
+
 Definition is_lending (k : jkind) : bool :=
   match k with JLend _ | JLendGet _ | JLendIdx _ => true | _ => false end.
 
 Definition env_join (e : senv) (av : aview) (eids : NS.t) (hs : pvec entity) (k : jkind) (ms : list member) : senv * jout :=
   if negb (join_ok e k ms) then (e, JSkipped) else
+  if negb (handles_ok hs k ms) then (e, JSkipped) else
   (* fetching a storage that is not registered panics *)
   if negb (forallb (m_registered e) ms) then (env_fail e, JSkipped) else
   let excl := is_lending k in
